@@ -25,6 +25,9 @@ type c09p struct {
 	trickle time.Duration
 	// parts: every batch lands in a partition of its own (PartitionFunc = the row's id)
 	parts bool
+	// empties: each producer's first batch has a row, all later ones are empty (they carry a
+	// done channel and must be answered at once: nothing of theirs can wait for a flush)
+	empties bool
 }
 
 func (p c09p) name() string {
@@ -34,6 +37,9 @@ func (p c09p) name() string {
 	}
 	if p.parts {
 		n += "-parts"
+	}
+	if p.empties {
+		n += "-empties"
 	}
 	return n
 }
@@ -99,7 +105,11 @@ func c09Root(p c09p) func() {
 						time.Sleep(p.trickle)
 					}
 					d := dones[pi*per+k]
-					if err := eng.IngestRows(ctx, []map[string]any{{"id": fmt.Sprintf("p%dk%d", pi, k)}}, d); err != nil {
+					rows := []map[string]any{{"id": fmt.Sprintf("p%dk%d", pi, k)}}
+					if p.empties && k > 0 {
+						rows = nil
+					}
+					if err := eng.IngestRows(ctx, rows, d); err != nil {
 						return
 					}
 					accepted.Add(1)
@@ -114,18 +124,21 @@ func c09Root(p c09p) func() {
 			time.Sleep(time.Duration(per+2) * p.trickle)
 		}
 		vapi.Quiesce()
-		if int(accepted.Load()) >= p.producers*per {
+		if !p.empties && int(accepted.Load()) >= p.producers*per {
 			vapi.Fail("C09: all %d offered batches were accepted although the store is stalled (no backpressure)", p.producers*per)
 		}
 		// a Flush caller arriving at the saturated pipeline blocks like a producer and fails with
 		// its context error too
 		var flushErr vapi.Cell[error]
-		wg.Add(1)
-		go func() {
-			defer wg.Done()
-			flushErr.Set(eng.Flush(ctx))
-		}()
-		vapi.Quiesce()
+		flushErr.Set(context.Canceled)
+		if !p.empties { // (there the pipeline is not saturated: Flush would be enqueued and wait for the stalled store)
+			wg.Add(1)
+			go func() {
+				defer wg.Done()
+				flushErr.Set(eng.Flush(ctx))
+			}()
+			vapi.Quiesce()
+		}
 		cancel() // blocked producers must now fail with their context error
 		wg.Wait()
 		if e, _ := flushErr.Get(); !errors.Is(e, context.Canceled) {
@@ -139,18 +152,20 @@ func init() {
 		var ps []c09p
 		if tier == "quick" {
 			for _, w := range []string{"CreateFile", "Write", "Close", "Update"} {
-				ps = append(ps, c09p{w, 1, 1, 2, 0, false})
+				ps = append(ps, c09p{w, 1, 1, 2, 0, false, false})
 			}
-			ps = append(ps, c09p{"Update", 2, 2, 2, 0, false})
+			ps = append(ps, c09p{"Update", 2, 2, 2, 0, false, false})
+			// empty batches behind a buffered row (rows limit 2: the one real row never triggers a flush)
+			ps = append(ps, c09p{"CreateFile", 1, 2, 1, 0, false, true}, c09p{"Update", 2, 2, 1, 0, false, true})
 			// every batch in a new partition
-			ps = append(ps, c09p{"CreateFile", 1, 1, 2, 0, true}, c09p{"Update", 2, 2, 2, 0, true})
+			ps = append(ps, c09p{"CreateFile", 1, 1, 2, 0, true, false}, c09p{"Update", 2, 2, 2, 0, true, false})
 			// time-triggered flushes only: each producer's batches arrive one ticker period apart
-			ps = append(ps, c09p{"CreateFile", 1, 1, 1, 250 * time.Millisecond, false}, c09p{"Update", 1, 1, 2, 250 * time.Millisecond, false})
+			ps = append(ps, c09p{"CreateFile", 1, 1, 1, 250 * time.Millisecond, false, false}, c09p{"Update", 1, 1, 2, 250 * time.Millisecond, false, false})
 		} else {
 			for _, w := range []string{"CreateFile", "Write", "Close", "Update"} {
 				for _, np := range []int{1, 2} {
 					for _, gap := range []time.Duration{120 * time.Millisecond, 250 * time.Millisecond} {
-						ps = append(ps, c09p{w, 1, 1, np, gap, false})
+						ps = append(ps, c09p{w, 1, 1, np, gap, false, false})
 					}
 				}
 			}
@@ -158,9 +173,12 @@ func init() {
 				for _, ib := range []int{1, 2} {
 					for _, rows := range []int{1, 2} {
 						for _, np := range []int{2, 3} {
-							ps = append(ps, c09p{w, ib, rows, np, 0, false})
+							ps = append(ps, c09p{w, ib, rows, np, 0, false, false})
 							if np == 2 {
-								ps = append(ps, c09p{w, ib, rows, np, 0, true})
+								ps = append(ps, c09p{w, ib, rows, np, 0, true, false})
+								if rows == 2 {
+									ps = append(ps, c09p{w, ib, rows, 1, 0, false, true})
+								}
 							}
 						}
 					}
